@@ -41,6 +41,8 @@ func (h *Handler6) PrintTable() {
 		}
 	}
 
+	h.Lock() // the router table is written by the packet loop under the handler lock
+	defer h.Unlock()
 	if len(h.LANRouters) > 0 {
 		fmt.Printf("icmp6 routers table len=%v\n", len(h.LANRouters))
 		for _, v := range h.LANRouters {
